@@ -284,6 +284,25 @@ impl TV {
 // ------------------------------------------------------------------ generators of field strings
 
 pub fn rand_utf8(rng: &mut Rng, max_bytes: usize) -> String {
+    // text that a "normalising" reader would alter: enclosed in quotes / brackets / spaces, trailing NUL or line end, leading BOM,
+    // upper case -- attribute text is opaque and must come back byte for byte
+    if max_bytes >= 4 && rng.chance(1, 8) {
+        let inner = rand_utf8(rng, max_bytes - 4);
+        let d = rng.below(8);
+        let s = match d {
+            0 => format!("\"{}\"", inner),
+            1 => format!(" {} ", inner),
+            2 => format!("{}\0", inner),
+            3 => format!("\u{feff}{}", inner),
+            4 => format!("<{}>", inner),
+            5 => format!("{}\r\n", inner),
+            6 => inner.to_uppercase(),
+            _ => format!("'{}'", inner),
+        };
+        if s.len() <= max_bytes {
+            return s;
+        }
+    }
     let target = rng.below(max_bytes as u64 + 1) as usize;
     let mut s = String::new();
     while s.len() < target {
